@@ -60,7 +60,10 @@ CONSTANTS N, MaxTime, MaxSkew, Budget, Variant, Faults, MaxToggle, Removal, Remo
           StartFrom, \* ... and the processes 2, 3, ... not before StartFrom (newcomers)
           HealOdds,  \* schedule generation: a fault ends with probability 1/HealOdds per step
           ListLag,   \* BOOLEAN: listings show a new lock file only after time has passed (next Wait / Tick)
-          FixSkew    \* BOOLEAN: the third party's clock is ahead by exactly MaxSkew (else any value in -MaxSkew..MaxSkew)
+          FixSkew,   \* BOOLEAN: the third party's clock is ahead by exactly MaxSkew (else any value in -MaxSkew..MaxSkew)
+          Edge       \* BOOLEAN: the third party judges a lock file stale at age >= STALE (not only > STALE): all sleeps and
+                     \* polls take no time here, in reality the expiry monitor forces the refresh when the lock file is
+                     \* 22.5 min + 200 ms (+ <= 1 s) old, so that a clock ahead by exactly 7.5 min already sees it stale
 
 VARIABLES now, files, pr, skewU, toggles, waits, hist, emitted, fresh
 vars == <<now, files, pr, skewU, toggles, waits, hist, emitted, fresh>>
@@ -319,7 +322,7 @@ Heal(p) ==
   /\ UNCHANGED <<now, files, skewU, toggles, waits, emitted>>
 
 \* `restic unlock` by a third party: removes the lock files that are stale by ITS clock
-StaleByU(f) == (now + skewU) - f.t > STALE
+StaleByU(f) == IF Edge THEN (now + skewU) - f.t >= STALE ELSE (now + skewU) - f.t > STALE
 StaleRm ==
   /\ (\E f \in files : StaleByU(f)) \/ (Sim /\ files # {} /\ RandomElement(1..6) = 1)   \* `unlock` may run at any time
   /\ files' = {f \in files : ~StaleByU(f)}
@@ -433,6 +436,30 @@ InvNotStale ==
 
 \* for the "code" variant: TLC's counterexample is printed as a schedule, which the harness replays into the real code
 InvNotStaleEmit == InvNotStale \/ ~PrintT(<<"SCHED", ToJson(hist)>>)
+
+---------------------------------------------------------------------------
+(* targeted schedules: in BFS mode (Emit = TRUE) TLC prints the schedule of the first (shortest, with one worker)  *)
+(* behaviour that reaches a goal state, i.e. a rarely reached branch of the protocol; the harness replays it      *)
+(* (followed by some steps / waits / ticks) into the real code like the simulated schedules.  The "invariants"    *)
+(* below are never violated: they print once per goal (register k of TLCGet/TLCSet).                               *)
+GoalNames == <<"robbed-before-fsave-newcomer-holds", "robbed-before-f2", "forced-refresh-remove-fault", "forced-refresh-cleanup",
+               "conflict-in-second-check", "handover-during-refresh", "both-in-second-check", "second-attempt-holds",
+               "forced-refresh-succeeded", "robbed-before-f1-newcomer-holds">>
+ASSUME \A k \in 1..Len(GoalNames) : TLCSet(k, 0)
+Goal(k, G) == ~G \/ TLCGet(k) = 1 \/ (TLCSet(k, 1) /\ PrintT(<<"GOAL", GoalNames[k], ToJson(hist)>>))
+HoldsNow(p) == pr[p].pc = "hold" /\ pr[p].ctx
+\* 1: the m1 window - process 1 passed the first existence check of its forced refresh, a third party (clock ahead)
+\*    removed its lock file, a newcomer acquired a lock (at least one of the two exclusive); 2: removed before F2
+InvGoal1  == Goal(1, N >= 2 /\ pr[1].pc = "fsave" /\ pr[1].ctx /\ pr[1].down = {} /\ pr[1].mine \notin files /\ HoldsNow(2) /\ (pr[1].x \/ pr[2].x))
+InvGoal2  == Goal(2, pr[1].pc = "f2" /\ pr[1].ctx /\ pr[1].down = {} /\ pr[1].mine \notin files)
+InvGoal3  == Goal(3, pr[1].pc = "frm" /\ "Remove" \in pr[1].down)
+InvGoal4  == Goal(4, pr[1].pc = "fclean" /\ pr[1].ctx)
+InvGoal5  == Goal(5, \E p \in Procs : pr[p].pc = "rmown")
+InvGoal6  == Goal(6, pr[1].pc = "rrm" /\ pr[1].forcing /\ pr[1].ctx)
+InvGoal7  == Goal(7, N >= 2 /\ pr[1].pc = "load" /\ pr[1].phase = 2 /\ pr[2].pc = "load" /\ pr[2].phase = 2 /\ (pr[1].x \/ pr[2].x))
+InvGoal8  == Goal(8, \E p \in Procs : pr[p].pc = "sleep" /\ pr[p].att = 2)
+InvGoal9  == Goal(9, pr[1].pc = "frm" /\ pr[1].ctx /\ pr[1].mine \in files /\ pr[1].down = {})
+InvGoal10 == Goal(10, N >= 2 /\ pr[1].pc \in {"hold", "f1"} /\ pr[1].ctx /\ pr[1].mine \notin files /\ HoldsNow(2) /\ (pr[1].x \/ pr[2].x))
 
 TypeOK == now \in 0..MaxTime /\ \A p \in Procs : pr[p].used <= Budget
 =============================================================================
